@@ -750,6 +750,10 @@ func (fc *fctx) exprStmt(s *ast.ExprStmt) string {
 	}
 	q, _ := fc.callee(c)
 	switch q {
+	case "self.log":
+		if t.mainMode {
+			return "" // console output: no value effect (its argument is not evaluated in the translation)
+		}
 	case "builtin.panic":
 		return fc.flush() + "Pnc (* panic(...) *) \x02"
 	case "builtin.copy":
